@@ -939,6 +939,16 @@ pub fn heartbeat(desc: impl FnOnce() -> String) {
     PROGRESS.fetch_add(1, std::sync::atomic::Ordering::Relaxed);
 }
 
+/// What the last heartbeat said was running.
+pub fn current_desc() -> String {
+    let cur = CURRENT.lock().map(|c| c.clone()).unwrap_or_default();
+    if cur.is_empty() {
+        "(the case after the last record)".to_string()
+    } else {
+        cur.replace(['\t', '\n'], " ")
+    }
+}
+
 /// Standard output shared between the suites and the watchdog.
 #[derive(Clone)]
 pub struct SharedOut(pub Arc<Mutex<std::io::BufWriter<std::io::Stdout>>>);
